@@ -70,12 +70,39 @@ func calleeShort(c *ssa.CallCommon) string {
 func (x *Exec) call(st *State, v *ssa.Call) bool {
 	fr := st.frameTop()
 	c := v.Common()
-	b := x.b
 	var args []Value
 	for _, a := range c.Args {
 		args = append(args, x.val(st, a))
 	}
 	cn := x.callNameOf(fr.fn, v)
+	// user assertions anchored before this call (arguments are visible as arg0, arg1, ...)
+	x.curArgs = args
+	x.userAsserts(st, fr, cn, false)
+	x.curArgs = nil
+	if st.dead {
+		return false
+	}
+	depth := len(st.frames)
+	if !x.callInner(st, v, args, cn) || st.dead {
+		return false
+	}
+	if len(st.frames) > depth {
+		// inlined: the clauses anchored after the call run when the callee's frame returns
+		top := st.frameTop()
+		top.afterCN = &cn
+		top.callArgs = args
+		return true
+	}
+	x.curCall, x.curArgs = v, args
+	x.userAsserts(st, fr, cn, true)
+	x.curCall, x.curArgs = nil, nil
+	return !st.dead
+}
+
+func (x *Exec) callInner(st *State, v *ssa.Call, args []Value, cn callName) bool {
+	fr := st.frameTop()
+	c := v.Common()
+	b := x.b
 	if c.IsInvoke() {
 		iv, ok := x.val(st, c.Value).(IfaceV)
 		if !ok {
@@ -116,13 +143,7 @@ func (x *Exec) call(st *State, v *ssa.Call) bool {
 	}
 	switch f := c.Value.(type) {
 	case *ssa.Builtin:
-		x.userAsserts(st, fr, cn, false)
 		fr.env[v] = x.builtin(st, v, f.Name(), args)
-		if !st.dead {
-			x.curCall = v
-			x.userAsserts(st, fr, cn, true)
-			x.curCall = nil
-		}
 		return !st.dead
 	case *ssa.Function:
 		return x.callFunc(st, v, f, args, nil, cn)
@@ -219,8 +240,12 @@ func (x *Exec) shouldAutoInline(fn *ssa.Function, depth int) bool {
 	}
 	// only helpers of the package under verification (and the byte-order helpers) are inlined
 	// without being asked for; everything else needs a contract or is havocked
-	if x.fn != nil && x.fn.Pkg != nil && fn.Pkg != x.fn.Pkg && !strings.HasSuffix(fn.Pkg.Pkg.Path(), "/internal/byteorder") {
-		return false
+	limit := 60
+	if x.fn != nil && x.fn.Pkg != nil && fn.Pkg != x.fn.Pkg && !strings.HasSuffix(fn.Pkg.Pkg.Path(), "/internal/byteorder") && !strings.HasSuffix(fn.Pkg.Pkg.Path(), "/internal/alias") {
+		limit = 12 // trivial wrappers and constructors of other packages only
+		if x.contract != nil && x.contract.HeapNonNil {
+			return false // sweep contracts stay inside their package; other packages need contracts
+		}
 	}
 	if len(x.loopsOf(fn)) > 0 {
 		return false
@@ -238,7 +263,7 @@ func (x *Exec) shouldAutoInline(fn *ssa.Function, depth int) bool {
 			}
 		}
 	}
-	return n <= 60
+	return n <= limit
 }
 
 func (x *Exec) callFunc(st *State, v *ssa.Call, callee *ssa.Function, args []Value, bindings []Value, cn callName) bool {
@@ -246,7 +271,11 @@ func (x *Exec) callFunc(st *State, v *ssa.Call, callee *ssa.Function, args []Val
 	key := FuncKey(callee)
 	top := x.contract
 	ct := x.db.Funcs[key]
-	forceInline := top != nil && (top.InlineCalls[cn.name] || top.InlineCalls[callee.Name()])
+	qual := callee.Name()
+	if callee.Pkg != nil {
+		qual = callee.Pkg.Pkg.Name() + "." + callee.Name()
+	}
+	forceInline := top != nil && (top.InlineCalls[cn.name] || top.InlineCalls[callee.Name()] || top.InlineCalls[qual])
 	forceHavoc := top != nil && (top.HavocCalls[cn.name] || top.HavocCalls[callee.Name()])
 	if fr.contract != nil && fr.contract != top {
 		forceInline = forceInline || fr.contract.InlineCalls[cn.name]
@@ -312,15 +341,6 @@ func (x *Exec) applyContract(st *State, ct *Contract, sig *types.Signature, name
 	if ct.Trusted {
 		x.trusted[shortPkg(ct.Key)] = true
 	}
-	// user assertions placed before this call
-	x.userAsserts(st, fr, cn, false)
-	defer func() {
-		if !st.dead {
-			x.curCall = v
-			x.userAsserts(st, fr, cn, true)
-			x.curCall = nil
-		}
-	}()
 	pre := st.snapshot()
 	nm := map[string]Value{}
 	for i, n := range names {
@@ -764,14 +784,28 @@ type Loc struct {
 	Obj    *Term
 	Lo, Hi *Term // absolute element range; nil = whole object (or scalar field)
 	Global bool
+	Ref    bool // the cells hold object ids (pointer, slice base, interface value)
+}
+
+func refHeapName(h string) bool {
+	return h == "H_ptr" || strings.HasSuffix(h, "#obj") || strings.HasSuffix(h, "#ival") || strings.HasSuffix(h, "#sobj")
 }
 
 func (x *Exec) havocLoc(st *State, l Loc) {
 	b := x.b
 	cur := st.heap(x, l.Heap, l.Sort)
 	es := arrElem(l.Sort)
+	isRef := l.Ref || refHeapName(l.Heap)
+	// a reference written by the callee denotes an object that exists when the call returns: it is
+	// none of the ids handed out by later allocations
+	floor := func(c *Term) *Term {
+		if isRef && c.Sort == SInt {
+			st.assume(b.mk("<=", SBool, "", nil, b.Int(*st.nextObj), c))
+		}
+		return c
+	}
 	if l.Lo == nil {
-		st.setHeap(l.Heap, b.Store(cur, l.Obj, b.Fresh(l.Heap+"@mod", es)), l.Obj)
+		st.setHeap(l.Heap, b.Store(cur, l.Obj, floor(b.Fresh(l.Heap+"@mod", es))), l.Obj)
 		return
 	}
 	d := b.Sub(l.Hi, l.Lo)
@@ -783,7 +817,7 @@ func (x *Exec) havocLoc(st *State, l Loc) {
 		// a few cells: plain stores of fresh values (no quantified frame needed)
 		arr := b.Select(cur, l.Obj)
 		for i := int64(0); i < k; i++ {
-			arr = b.Store(arr, b.Add(l.Lo, b.Int(i)), b.Fresh(l.Heap+"@modc", ees))
+			arr = b.Store(arr, b.Add(l.Lo, b.Int(i)), floor(b.Fresh(l.Heap+"@modc", ees)))
 		}
 		st.setHeap(l.Heap, b.Store(cur, l.Obj, arr), l.Obj)
 		return
@@ -993,6 +1027,10 @@ func (x *Exec) userAsserts(st *State, fr *Frame, cn callName, after bool) {
 			continue
 		}
 		ctx := x.specCtx(st, fr)
+		x.assertFired[fr.contract.Key+"#"+fmt.Sprint(i)] = true
+		for k, av := range x.curArgs {
+			ctx.names[fmt.Sprintf("arg%d", k)] = av
+		}
 		if after && x.curCall != nil {
 			if rv, ok := fr.env[x.curCall]; ok {
 				ctx.names["result"] = rv // the value returned by the call this clause is anchored to
